@@ -142,7 +142,15 @@ def c15_corr(res, exe, driver, tier, seed, tmp):
                     lines.append(typed(pre, ctx, t[:k]))
                     metas.append({"ctx": ctx, "prefix": pre, "partial": t[:k], "root": root})
         if lines:
-            cases.append(("path %s %s" % (lt, " ".join(enc(l) if l else "-" for l in lines)), metas, lines, lt))
+            # text AFTER the cursor (quotes, blanks, backslashes) must not matter: only line[..pos] is the partial path
+            TAILS = [[0x22], [0x27], [0x20, 0x22, 0x78], [0x20, 0x74], [0x22, 0x20, 0x22], [0x5c], [0x27, 0x20, 0x61], [0x2f, 0x78]]
+            toks = []
+            for l in lines:
+                tok = enc(l) if l else "-"
+                if rng.random() < 0.4:
+                    tok += "|" + enc(rng.choice(TAILS))
+                toks.append(tok)
+            cases.append(("path %s %s" % (lt, " ".join(toks)), metas, lines, lt))
     impl = run_impl(exe, "compl", [c[0] for c in cases], tmp)
     if driver:
         model = run_model(driver, "compl", [c[0] for c in cases], tmp)
